@@ -328,52 +328,18 @@ func (g *gen) inject(pos token.Pos, name string, sig *types.Signature, set *Prov
 			return notePosition(g.pkg.Fset.Position(pos), fmt.Errorf("inject %s: %v", name, e))
 		})
 	}
+	if errs := checkInjectorCalls(g.pkg.Fset, g.pkg.PkgPath, pos, name, injectSig, calls); len(errs) > 0 {
+		return errs
+	}
 	type pendingVar struct {
 		name     string
 		expr     ast.Expr
 		typeInfo *types.Info
 	}
 	var pendingVars []pendingVar
-	ec := new(errorCollector)
 	for i := range calls {
 		c := &calls[i]
-		if c.hasCleanup && !injectSig.cleanup {
-			ts := types.TypeString(c.out, nil)
-			ec.add(notePosition(
-				g.pkg.Fset.Position(pos),
-				fmt.Errorf("inject %s: provider for %s returns cleanup but injection does not return cleanup function", name, ts)))
-		}
-		if c.hasErr && !injectSig.err {
-			ts := types.TypeString(c.out, nil)
-			ec.add(notePosition(
-				g.pkg.Fset.Position(pos),
-				fmt.Errorf("inject %s: provider for %s returns error but injection not allowed to fail", name, ts)))
-		}
-		if c.pkg != nil && c.pkg.Path() != g.pkg.PkgPath {
-			// The generated code refers to the provider function, struct type
-			// and field names by name; they must be visible from this package.
-			ts := types.TypeString(c.out, nil)
-			if !ast.IsExported(c.name) {
-				ec.add(notePosition(
-					g.pkg.Fset.Position(pos),
-					fmt.Errorf("inject %s: provider for %s uses unexported identifier %s.%s", name, ts, c.pkg.Name(), c.name)))
-			}
-			for _, fn := range c.fieldNames {
-				if !ast.IsExported(fn) {
-					ec.add(notePosition(
-						g.pkg.Fset.Position(pos),
-						fmt.Errorf("inject %s: struct provider for %s sets unexported field %s.%s.%s", name, ts, c.pkg.Name(), c.name, fn)))
-				}
-			}
-		}
 		if c.kind == valueExpr {
-			if err := accessibleFrom(c.valueTypeInfo, c.valueExpr, g.pkg.PkgPath); err != nil {
-				// TODO(light): Display line number of value expression.
-				ts := types.TypeString(c.out, nil)
-				ec.add(notePosition(
-					g.pkg.Fset.Position(pos),
-					fmt.Errorf("inject %s: value %s can't be used: %v", name, ts, err)))
-			}
 			if g.values[c.valueExpr] == "" {
 				t := c.valueTypeInfo.TypeOf(c.valueExpr)
 
@@ -386,9 +352,6 @@ func (g *gen) inject(pos token.Pos, name string, sig *types.Signature, set *Prov
 				})
 			}
 		}
-	}
-	if len(ec.errors) > 0 {
-		return ec.errors
 	}
 
 	// Perform one pass to collect all imports, followed by the real pass.
@@ -412,6 +375,58 @@ func (g *gen) inject(pos token.Pos, name string, sig *types.Signature, set *Prov
 		g.p(")\n\n")
 	}
 	return nil
+}
+
+// checkInjectorCalls reports what prevents generating the injector called name,
+// declared at pos in package pkgPath with result signature injectSig, from the
+// planned calls: a provider that returns a cleanup or an error the injector
+// cannot return, and providers, struct fields or value expressions the
+// injector's package cannot refer to. It is shared by Generate and Load so that
+// "wire check" reports what "wire gen" would.
+func checkInjectorCalls(fset *token.FileSet, pkgPath string, pos token.Pos, name string, injectSig outputSignature, calls []call) []error {
+	ec := new(errorCollector)
+	for i := range calls {
+		c := &calls[i]
+		if c.hasCleanup && !injectSig.cleanup {
+			ts := types.TypeString(c.out, nil)
+			ec.add(notePosition(
+				fset.Position(pos),
+				fmt.Errorf("inject %s: provider for %s returns cleanup but injection does not return cleanup function", name, ts)))
+		}
+		if c.hasErr && !injectSig.err {
+			ts := types.TypeString(c.out, nil)
+			ec.add(notePosition(
+				fset.Position(pos),
+				fmt.Errorf("inject %s: provider for %s returns error but injection not allowed to fail", name, ts)))
+		}
+		if c.pkg != nil && c.pkg.Path() != pkgPath {
+			// The generated code refers to the provider function, struct type
+			// and field names by name; they must be visible from this package.
+			ts := types.TypeString(c.out, nil)
+			if !ast.IsExported(c.name) {
+				ec.add(notePosition(
+					fset.Position(pos),
+					fmt.Errorf("inject %s: provider for %s uses unexported identifier %s.%s", name, ts, c.pkg.Name(), c.name)))
+			}
+			for _, fn := range c.fieldNames {
+				if !ast.IsExported(fn) {
+					ec.add(notePosition(
+						fset.Position(pos),
+						fmt.Errorf("inject %s: struct provider for %s sets unexported field %s.%s.%s", name, ts, c.pkg.Name(), c.name, fn)))
+				}
+			}
+		}
+		if c.kind == valueExpr {
+			if err := accessibleFrom(c.valueTypeInfo, c.valueExpr, pkgPath); err != nil {
+				// TODO(light): Display line number of value expression.
+				ts := types.TypeString(c.out, nil)
+				ec.add(notePosition(
+					fset.Position(pos),
+					fmt.Errorf("inject %s: value %s can't be used: %v", name, ts, err)))
+			}
+		}
+	}
+	return ec.errors
 }
 
 // rewritePkgRefs rewrites any package references in an AST into references for the
